@@ -27,9 +27,10 @@ one `encode_from_utf8_to_vec` per round, on `OutputFull`
   hypothesis) — the analogue of `without_replacement_panic_length`;
 * `encodeV_total`: total correctness (`encodeV_eq_stream` without the "whenever it returns").
 
-Observation (not reachable on a 64-bit target, see NOTES-corB.md): without the length precondition
-the model has a diverging run — `next_power_of_two` wrapping to 0 on an empty `Vec` makes
-`reserve_exact(0 - 0)` a no-op (`wrap_diverges`).
+Observation (not reachable on a 64-bit target, see NOTES-corB.md): the length precondition is needed
+for termination too — when `next_power_of_two` wraps to 0 (release build) while the `Vec` is still
+empty, `rounded - vec.len() = 0`, `reserve_exact(0)` is a no-op and the loop repeats
+(`encodeLoop_wrap_diverges`).
 -/
 namespace EncodingRs.Thm.C11EncTerm
 open EncodingRs EncodingRs.Model EncodingRs.Model.OneShot EncodingRs.Lemmas.EncCore
@@ -488,5 +489,153 @@ theorem encodeV_total (vo : Gen.Variant) (text bytes : List Nat) (fuel : Nat) (s
       r.hadUnmappables = anyUnmap (eref (efamOfVariant vo) (efamOfVariant vo).init text) := by
   obtain ⟨r, hr⟩ := encodeV_terminates vo bytes fuel slack bs hwf hlen hfuel hadm
   exact ⟨r, hr, Thm.C11.encodeV_eq_stream vo text bytes fuel slack bs r ht hbytes hr⟩
+
+/-! ## the length precondition cannot simply be dropped -/
+
+theorem nextPowerOfTwoU_wraps (n : Nat) (h : 2 ^ 63 < n) : nextPowerOfTwoU n = 0 := by
+  unfold nextPowerOfTwoU
+  have h1 : ¬ n ≤ 1 := by omega
+  have h2 : n - 1 ≠ 0 := by omega
+  have h3 : 63 ≤ (n - 1).log2 := (Nat.le_log2 h2).mpr (by omega)
+  have h4 : 2 ^ (63 + 1) ≤ 2 ^ ((n - 1).log2 + 1) := Nat.pow_le_pow_right (by decide) (by omega)
+  have h5 : nextPowerOfTwo n = 2 ^ ((n - 1).log2 + 1) := by unfold nextPowerOfTwo; rw [if_neg h1]
+  have h6 : usizeMax < 2 ^ (63 + 1) := by decide
+  rw [if_neg (by omega)]
+
+/-- **Why termination needs the length precondition** (model-level observation; on a 64-bit target it
+would take a `&str` of more than 2^61 bytes).  If `max_buffer_length_from_utf8_if_no_unmappables(len)`
+exceeds 2^63 without overflowing, `usize::next_power_of_two` wraps to 0 in a release build (the code
+uses the unchecked `next_power_of_two`, unlike the `checked_next_power_of_two` of the decode
+functions): the `Vec` is created with capacity 0, `encode_from_utf8` returns `OutputFull` at once
+(destination shorter than `NCR_EXTRA`), `rounded = 0`, `rounded - vec.len() = 0`,
+`reserve_exact(0)` does nothing, and the round repeats for ever — instead of the documented panic. -/
+theorem encodeLoop_wrap_diverges (v : Gen.Variant) (hv : canEncodeEverything v = false) (ifuel : Nat)
+    (hif : 1 ≤ ifuel) (s : (efamOfVariant v).σ) (src : List Nat) (hne : src ≠ []) (Q : Nat)
+    (hq : encMaxIfNoUnmappables false v src.length = some Q) (hbig : 2 ^ 63 < Q) :
+    ∀ (fuel : Nat) (bs : List (List Budget)), encodeLoop v ifuel fuel s src 0 0 [] bs = .diverges := by
+  intro fuel
+  induction fuel with
+  | zero => intro bs; rfl
+  | succ fuel ih =>
+    intro bs
+    obtain ⟨k, rfl⟩ : ∃ k, ifuel = k + 1 := ⟨ifuel - 1, by omega⟩
+    have hrun : encRepl (efamOfVariant v) (canEncodeEverything v) Gen.ncrExtra false true (0 - 0) (k + 1) s src
+        (bs.headD []) = some ⟨.outputFull, 0, [], false, s, []⟩ := by
+      rw [encRepl, hv]
+      have h1 : ¬ false = true ∧ 0 - 0 < Gen.ncrExtra := ⟨by simp, by decide⟩
+      rw [if_pos h1]
+      have h2 : ¬ (src.isEmpty = true ∧ ¬ (true = true ∧ (efamOfVariant v).hasPending s = true)) := by
+        intro hc; exact hne (List.isEmpty_iff.mp hc.1)
+      rw [if_neg h2]
+    have hQle : Q ≤ usizeMax := by
+      obtain ⟨R, _, h2, h3⟩ := (encMaxIfNoUnmappables_eq_some false v src.length Q).mp hq
+      omega
+    have hsum : U.addO 0 (encMaxIfNoUnmappables false v (src.length - 0)) = some Q := by
+      rw [Nat.sub_zero, hq]
+      exact addO_eq_some.mpr ⟨Q, rfl, by omega, by omega⟩
+    rw [encodeLoop, hrun]
+    simp only [hsum, nextPowerOfTwoU_wraps Q hbig, List.length_nil, Nat.add_zero, Nat.lt_irrefl, if_false,
+      List.drop_zero, Nat.max_self, List.headD_nil, List.tail_nil]
+    rw [ih bs.tail]
+
+/-! ## Non-vacuity: an executable admissibility checker, and a run with an `OutputFull` round -/
+
+def innerAdmissibleB (inner : List (Nat × Nat × ERes × Nat)) : Bool :=
+  inner.all fun x => decide (x.2.1 ≤ x.1) && (x.2.2.1 != .outputFull || decide (x.1 < x.2.1 + x.2.2.2))
+
+theorem innerAdmissibleB_sound (inner : List (Nat × Nat × ERes × Nat)) (h : innerAdmissibleB inner = true) :
+    InnerAdmissible inner := by
+  intro x hx
+  have := List.all_eq_true.mp h x hx
+  simp only [Bool.and_eq_true, Bool.or_eq_true, decide_eq_true_eq, bne_iff_ne, ne_eq] at this
+  refine ⟨this.1, fun hf => ?_⟩
+  rcases this.2 with h2 | h2
+  · exact absurd hf h2
+  · exact h2
+
+/-- executable version of `EncodeAdmissible` -/
+def encodeAdmissibleB (v : Gen.Variant) (ifuel : Nat) :
+    Nat → (efamOfVariant v).σ → List Nat → Nat → Nat → List Nat → List (List Budget) → Bool
+  | 0, _, _, _, _, _, _ => true
+  | fuel + 1, s, src, cap, len, slack, bs =>
+    match encRepl (efamOfVariant v) (canEncodeEverything v) Gen.ncrExtra false true (cap - len) ifuel s src
+        (bs.headD []) with
+    | none => true
+    | some t =>
+      innerAdmissibleB t.inner &&
+      (if t.res = .outputFull then
+        match U.addO cap (encMaxIfNoUnmappables false v (src.length - t.read)) with
+        | none => true
+        | some sum =>
+          encodeAdmissibleB v ifuel fuel t.st (src.drop t.read) (max cap (nextPowerOfTwoU sum) + slack.headD 0)
+            (len + t.out.length) slack.tail bs.tail
+       else true)
+
+theorem encodeAdmissibleB_sound (v : Gen.Variant) (ifuel : Nat) :
+    ∀ (fuel : Nat) (s : (efamOfVariant v).σ) (src : List Nat) (cap len : Nat) (slack : List Nat)
+      (bs : List (List Budget)),
+      encodeAdmissibleB v ifuel fuel s src cap len slack bs = true →
+      EncodeAdmissible v ifuel fuel s src cap len slack bs := by
+  intro fuel
+  induction fuel with
+  | zero => intro s src cap len slack bs _; simp [EncodeAdmissible]
+  | succ fuel ih =>
+    intro s src cap len slack bs h
+    rw [EncodeAdmissible]
+    intro t ht
+    rw [encodeAdmissibleB, ht] at h
+    simp only [Bool.and_eq_true] at h
+    refine ⟨innerAdmissibleB_sound _ h.1, fun hres sum hsum => ?_⟩
+    have h2 := h.2
+    rw [if_pos hres, hsum] at h2
+    exact ih _ _ _ _ _ _ h2
+
+def encodeVAdmissibleB (vo : Gen.Variant) (bytes : List Nat) (fuel : Nat) (slack : List Nat)
+    (bs : List (List Budget)) : Bool :=
+  match U.addO (validUpToNoRepl vo bytes)
+      (encMaxIfNoUnmappables false vo (bytes.length - validUpToNoRepl vo bytes)) with
+  | none => true
+  | some c0 =>
+    encodeAdmissibleB vo fuel fuel (efamOfVariant vo).init (bytes.drop (validUpToNoRepl vo bytes))
+      (nextPowerOfTwoU c0 + slack.headD 0) (validUpToNoRepl vo bytes) slack.tail bs
+
+theorem encodeVAdmissibleB_sound (vo : Gen.Variant) (bytes : List Nat) (fuel : Nat) (slack : List Nat)
+    (bs : List (List Budget)) (h : encodeVAdmissibleB vo bytes fuel slack bs = true) :
+    EncodeVAdmissible vo bytes fuel slack bs := by
+  intro c0 hc0
+  unfold encodeVAdmissibleB at h
+  rw [hc0] at h
+  exact encodeAdmissibleB_sound vo fuel fuel _ _ _ _ _ _ h
+
+section NonVacuity
+
+/-- x-user-defined, `ééé` (three unmappable characters, `&#233;` each): the first allocation is
+`next_power_of_two(0 + 10 + 6) = 16` bytes; round one writes one reference and returns `OutputFull`
+(6 ≥ 16 − 10), `reserve_exact` brings the capacity to `next_power_of_two(16 + 10 + 4) = 32`, round two
+finishes.  The never-stop policy is admissible, all hypotheses of `encodeV_terminates` hold, and the
+model returns what the theorem says. -/
+def demoBytes : List Nat := [0xC3, 0xA9, 0xC3, 0xA9, 0xC3, 0xA9]
+
+theorem demo_wf : Spec.WellFormedUtf8 demoBytes :=
+  .cons [0xC3, 0xA9] _ rfl (.cons [0xC3, 0xA9] _ rfl (.cons [0xC3, 0xA9] [] rfl .nil))
+
+theorem demo_adm : EncodeVAdmissible .userDefined demoBytes 8 [] [] :=
+  encodeVAdmissibleB_sound _ _ _ _ _ (by decide +kernel)
+
+example : ∃ r, encodeV .userDefined demoBytes 8 [] [] = .ok r :=
+  encodeV_terminates .userDefined demoBytes 8 [] [] demo_wf (by decide) (by decide) demo_adm
+
+example : encodeV .userDefined demoBytes 8 [] []
+    = .ok ⟨[38, 35, 50, 51, 51, 59, 38, 35, 50, 51, 51, 59, 38, 35, 50, 51, 51, 59], true, false⟩ := by
+  decide +kernel
+
+/-- the first round does end `OutputFull` having consumed one character (two bytes) -/
+example : (encRepl userDefinedEFam false Gen.ncrExtra false true 16 8 () demoBytes []).map
+    (fun t => (t.res, t.read, t.out.length)) = some (.outputFull, 2, 6) := by decide +kernel
+
+/-- a policy that stops the very first inner call although 6 bytes are free is not admissible -/
+example : encodeVAdmissibleB .userDefined [0x41, 0xC3, 0xA9, 0x42] 8 [] [[.full 0]] = false := by decide +kernel
+
+end NonVacuity
 
 end EncodingRs.Thm.C11EncTerm
